@@ -473,6 +473,7 @@ class Executor:
         if self.registry is not None:
             deps = sha(repr([(k, [c.__name__ for c in v]) for k, v in sorted(self.registry.dependencies.items()) if v]))
         return {
+            "containers": sha(repr(mutable_containers())),
             "reclimit": sys.getrecursionlimit(),
             "primaries": sha(repr([p.__name__ for p in r.primaries])),
             "nprim": len(r.primaries), "nchecks": len(r.checks),
@@ -530,13 +531,18 @@ class Executor:
                 if isinstance(v, dict):
                     os.mkdir(p)
                     build(v, p)
+                elif isinstance(v, str) and v.startswith("->"):
+                    links.append((p, v[2:]))
                 elif isinstance(v, str) and v.startswith("@"):
                     with open(p, "wb") as fh:
                         fh.write(self.store.data(v[1:]))
                 else:
                     with open(p, "wb") as fh:
                         fh.write((v or "").encode())
+        links = []
         build(tree, self.scratch)
+        for p, target in links:        # symbolic links last (their targets exist by then); target relative to the link's directory
+            os.symlink(target, p)
 
     def cleanup(self):
         try:
@@ -983,6 +989,37 @@ class Executor:
 
     def git_ignored(self, path, git):
         return self.git_decision(path, git)[0]
+
+
+def mutable_containers():
+    """Generic part of the state-vector probe: every list/dict/set that lives on a norminette module or class (not on
+    an instance) - the places where state can survive from one file to the next. Order-independent summaries."""
+    out = []
+    for mname in sorted(m for m in sys.modules if m == "norminette" or m.startswith("norminette.")):
+        mod = sys.modules.get(mname)
+        if mod is None:
+            continue
+        for an, av in sorted(vars(mod).items()):
+            if an.startswith("__"):
+                continue
+            if isinstance(av, (list, dict, set)):
+                out.append((mname, an, _summ(av)))
+            elif isinstance(av, type) and getattr(av, "__module__", None) == mname:
+                for cn, cv in sorted(vars(av).items()):
+                    if isinstance(cv, (list, dict, set)) and not cn.startswith("__"):
+                        out.append((mname, an + "." + cn, _summ(cv)))
+    return out
+
+
+def _summ(v):
+    try:
+        if isinstance(v, dict):
+            return ("dict", len(v), sha(repr(sorted((repr(k), repr(x)[:200]) for k, x in v.items()))))
+        if isinstance(v, set):
+            return ("set", len(v), sha(repr(sorted(repr(x)[:200] for x in v))))
+        return ("list", len(v), sha(repr([repr(x)[:200] for x in v])))
+    except Exception:  # noqa
+        return ("?", -1, "")
 
 
 def git_rules(git):
